@@ -173,7 +173,7 @@ func (ms *metaStore) discardStagedMeta(path metaPath) {
 
 func (ms *metaStore) deleteMeta(path metaPath) error {
 	ms.discardStagedMeta(path)
-	if err := ms.fs.Remove(path.FilePath()); os.IsNotExist(err) {
+	if err := ms.fs.Remove(path.FilePath()); isNotExist(err) {
 		return nil
 	} else {
 		return err
